@@ -1747,6 +1747,17 @@ pub mod verif_exports {
     ) -> Vec<RangeInclusive<CrsqlDbVersion>> {
         super::chunk_range(range, chunk_size).collect()
     }
+
+    pub fn send_change_chunks<I: Iterator<Item = rusqlite::Result<Change>>>(
+        sender: &Sender<SyncMessage>,
+        chunked: ChunkedChanges<I>,
+        actor_id: ActorId,
+        version: CrsqlDbVersion,
+        last_seq: CrsqlSeq,
+        ts: Timestamp,
+    ) -> eyre::Result<()> {
+        super::send_change_chunks(sender, chunked, actor_id, version, last_seq, ts)
+    }
 }
 
 #[cfg(test)]
